@@ -929,6 +929,7 @@ func c17Gen(c *hmain.Ctx) {
 				masks = append(masks, randMask(c, r, withLists || overlap))
 			}
 			var gign, gproc [][]string
+			ovShort, ovLong := "", ""
 			if (withLists || overlap) && r.Chance(1, 2) {
 				if r.Bool() {
 					gign = randPaths(c, r)
@@ -944,6 +945,7 @@ func c17Gen(c *hmain.Ctx) {
 				// make one list entry a strict prefix of an entry of another list
 				short := randPath(r)[:1]
 				long := append(append([]string(nil), short...), hx.Pick(r, keyAlpha))
+				ovShort, ovLong = short[0], long[1]
 				a, b := masks[r.Intn(len(masks))], masks[r.Intn(len(masks))]
 				if a == b {
 					if r.Bool() {
@@ -985,6 +987,16 @@ func c17Gen(c *hmain.Ctx) {
 				} else {
 					e = randObj(r, 2, r.Range(1, 5))
 				}
+				if overlap && len(ovShort) > 0 {
+					// put values where the overlapping entries point: {short: {long: text, other: text}, ...}
+					inner := hx.L(hx.I(5), hx.L(hx.S(ovLong), hx.L(hx.I(3), hx.S(randText(r, 6)))),
+						hx.L(hx.S(hx.Pick(r, keyAlpha)), hx.L(hx.I(3), hx.S(randText(r, 6)))))
+					items := []hx.Sx{hx.I(5), hx.L(hx.S(ovShort), inner)}
+					if !hx.IsInt(e) && hx.Int(hx.Items(e)[0]) == 5 {
+						items = append(items, hx.Items(e)[1:]...)
+					}
+					e = hx.L(items...)
+				}
 				if checkDecode(c, e) {
 					events = append(events, e)
 				}
@@ -994,6 +1006,31 @@ func c17Gen(c *hmain.Ctx) {
 			if obsFired(obs) {
 				c.W.Count(stream + "_some_mask_fired")
 			}
+			if len(gproc) > 0 {
+				fast := true
+				for _, m := range masks {
+					fast = fast && len(m.ign) == 0 && len(m.proc) == 0
+				}
+				if fast {
+					c.W.Count(stream + "_fast_path")
+				}
+			}
+			keys := map[string]bool{}
+			for _, e := range events {
+				if !hx.IsInt(e) && hx.Int(hx.Items(e)[0]) == 5 {
+					for _, f := range hx.Items(e)[1:] {
+						keys[hx.Str(hx.Items(f)[0])] = true
+					}
+				}
+			}
+			coll := gaf != "" && keys[gaf]
+			for _, m := range masks {
+				coll = coll || (m.afield != "" && keys[m.afield])
+			}
+			if coll {
+				c.W.Count(stream + "_mark_field_already_in_event")
+			}
+			c.W.Count(fmt.Sprintf("%s_masks_%d", stream, len(masks)))
 			if len(gproc) > 0 {
 				c.W.Count(stream + "_global_process_list")
 			}
